@@ -100,8 +100,10 @@ def frame_stream(stream, rng=None, cuts="default"):
     else:
         sizes = []
         left = T
+        if T < 2 ** 24 and rng.random() < 0.2:
+            sizes, left = [T], 0                      # the whole member as ONE chunk (readers accept chunks beyond 64 KiB)
         while left:
-            k = rng.choice([1, 2, 3, 7, 64, 1000, 4096, 65535, 65536]) if rng.random() < 0.7 else rng.randint(1, 65536)
+            k = rng.choice([1, 2, 3, 7, 64, 1000, 4096, 65535, 65536, 200000]) if rng.random() < 0.7 else rng.randint(1, 65536)
             k = min(k, left)
             sizes.append(k)
             left -= k
@@ -179,6 +181,25 @@ def rechunk(pkg, rng):
                 new.append((name, frame_stream(iwa.stream_of(d), rng, "random")))
                 n += 1
                 continue
+            except Exception:  # noqa: BLE001
+                pass
+        new.append((name, d))
+    pkg.members = new
+    return n
+
+
+def one_chunk(pkg, rng):
+    """every archive member as a single chunk, however long (a reader accepts what the three-byte length field can express)"""
+    n = 0
+    new = []
+    for name, d in pkg.members:
+        if name.endswith(".iwa"):
+            try:
+                st = iwa.stream_of(d)
+                if 0 < len(st) < 2 ** 24:
+                    new.append((name, iwa.frame(st, [len(st)])))
+                    n += 1
+                    continue
             except Exception:  # noqa: BLE001
                 pass
         new.append((name, d))
@@ -329,7 +350,7 @@ def empty_row_records(pkg, rng, add):
 
 REWRITES = ["permute-lists", "rechunk", "reorder-zip", "recompress-stored", "recompress-deflated", "to-package", "to-single",
             "narrow-offsets", "widen-offsets", "add-empty-row-headers", "drop-empty-row-headers",
-            "add-empty-row-records", "drop-empty-row-records"]
+            "add-empty-row-records", "drop-empty-row-records", "one-chunk"]
 CONTENT = {"permute-lists", "narrow-offsets", "widen-offsets", "add-empty-row-headers", "drop-empty-row-headers",
            "add-empty-row-records", "drop-empty-row-records"}
 
@@ -344,6 +365,8 @@ def apply(pkg, names, rng, out_base):
             effect += permute_lists(pkg, rng)
         elif w == "rechunk":
             effect += rechunk(pkg, rng)
+        elif w == "one-chunk":
+            effect += one_chunk(pkg, rng)
         elif w == "reorder-zip":
             order = list(range(len(pkg.members)))
             rng.shuffle(order)
